@@ -87,6 +87,49 @@ def fixed_cases():
     return out
 
 
+def small_cases(flags=False, shard=0, nshards=1, max_size=3):
+    """SYSTEMATIC enumeration: every expression with up to max_size operators over {a, b} (literals "", a, b, ab, %s"a";
+    range a-b; alternation / concatenation of two; repetition with bounds from a fixed list; option; with `flags`
+    also first-match alternations and one exclusion), as the definition of one rule (plus a helper rule), on ALL strings
+    over {a, b} up to length 4 (every offset is tried by run_cases)."""
+    leaves = [["lit", 0, ""], ["lit", 0, "a"], ["lit", 0, "b"], ["lit", 0, "ab"], ["lit", 1, "A"], ["range", 97, 98], ["ref", "h"]]
+    bounds = [(0, None), (1, None), (0, 1), (2, 2), (1, 2), (0, 0), (2, 3), (0, 2)]
+    levels = [leaves]
+    for _ in range(max_size - 1):
+        prev_all = [e for lv in levels for e in lv]
+        last = levels[-1]
+        nxt = []
+        for x in last:
+            for (mn, mx) in bounds:
+                nxt.append(["rep", mn, mx, x])
+            nxt.append(["opt", x])
+        for x in last:
+            for y in prev_all[: (len(leaves) if len(levels) > 1 else len(prev_all))]:
+                nxt.append(["alt", 0, [x, y]])
+                nxt.append(["cat", [x, y]])
+                if len(levels) > 1:
+                    nxt.append(["alt", 0, [y, x]])
+                    nxt.append(["cat", [y, x]])
+                if flags:
+                    nxt.append(["alt", 1, [x, y]])
+        levels.append(nxt)
+    exprs = [e for lv in levels[1:] for e in lv]
+    inputs = gen.exhaustive_strings(["a", "b"], 4)
+    out = []
+    for k, e in enumerate(exprs):
+        if k % nshards != shard:
+            continue
+        rules = [{"name": "r", "def": e, "excl": None},
+                 {"name": "h", "def": ["alt", 0, [["lit", 0, "a"], ["lit", 0, "aa"]]], "excl": None}]
+        if flags and k % 5 == 0:
+            rules[0]["excl"] = "h"
+        g = {"rules": rules, "alpha": ["a", "b"]}
+        if not gen.wf(g):
+            continue
+        out.append({"seed": 0, "index": f"small:{k}", "mode": "small", "grammar": g, "inputs": inputs})
+    return out
+
+
 def run_cases(cases, want_parse=True):
     """returns (records, stats); record = dict(case, kind, rule, s, i, impl, model)"""
     lines = []
@@ -250,6 +293,13 @@ def main():
     t0 = time.time()
     if a.cases:
         cases = json.load(open(a.cases))
+    elif a.mode.startswith("small"):
+        # --mode small:<flags 0|1>:<shard>:<nshards>:<max_size>
+        _, fl, sh_, ns, ms = (a.mode.split(":") + ["0", "0", "1", "3"])[:5]
+        cases = small_cases(flags=fl == "1", shard=int(sh_), nshards=int(ns), max_size=int(ms))
+        if a.n and a.n < len(cases):
+            rng = random.Random(a.seed)
+            cases = rng.sample(cases, a.n)
     else:
         cases = fixed_cases() + [make_case(a.seed, k, a.mode) for k in range(a.n)]
     records, stats = run_cases(cases)
